@@ -1,0 +1,14 @@
+//go:build verif
+
+package context
+
+import (
+	"github.com/lindb/lindb/models"
+	"github.com/lindb/lindb/sql/stmt"
+)
+
+// VerifCalcTimeRangeAndInterval exposes calcTimeRangeAndInterval to the external
+// verification harness (build tag verif only).
+func VerifCalcTimeRangeAndInterval(statement *stmt.Query, cfg models.Database) {
+	calcTimeRangeAndInterval(statement, cfg)
+}
